@@ -194,7 +194,7 @@ def mstr_cases(r: random.Random, n: int) -> list[tuple[str, int, str, str]]:
 def main() -> None:
     run = Run("C04", "proof")
     run.forbid()
-    run.require_vo(["Text/Dec.v", "Text/Str.v", "Text/StrProofs.v", "Text/MStr.v", "Text/MStrProofs.v"])
+    run.require_vo(["Text/Dec.v", "Text/Str.v", "Text/StrProofs.v", "Text/MStr.v", "Text/MStrProofs.v", "Text/Num.v", "Text/NumProofs.v"])
     run.props("Props/C04.v")
     q = run.tier == "quick"
     r = random.Random(f"C04-{run.seed}")
@@ -246,6 +246,9 @@ def main() -> None:
             mfirst = (diff, {"quote": qq, "indent": ind, "string": s, "literal": lit, "impl": im, "model": mo})
     if mfirst is not None:
         run.correspondence_broken("K-mstr (Text/MStr.v)", mfirst[0], mfirst[1])
+    # ... and of the number literals (Text/Num.v)
+    from knum import check_knum
+    check_knum(run, r, 1500 if q else 20000)
     strings = structured_strings(r, 400 if q else 5000) + exhaustive_strings(3 if q else 5)
     tasks, meta = [], []
     for s in strings:
